@@ -314,7 +314,7 @@ fn random_cfg(rng: &mut Rng, n: usize, directed: bool) -> Cfg {
 }
 
 pub fn random_program(rng: &mut Rng, directed: bool, len: usize) -> Program {
-    let n = 2 + rng.below(5);
+    let n = if rng.chance(1, 3) { 6 + rng.below(7) } else { 2 + rng.below(5) };
     let prios: Vec<i32> = (0..n).map(|_| rng.below(4) as i32).collect();
     let mut calls = vec![];
     let mut connects = 0u32;
@@ -455,4 +455,38 @@ pub fn run_enumerated<A: Flav, B: Flav>(rep: &mut Report, n: usize, max_edges: u
         }
     }
     rep.count("enumerations_completed");
+}
+
+/// Mutation from inside loops and closures, side by side on both flavours: the
+/// sequence of yielded edges, the discrepancies and the final adjacency must agree.
+pub fn run_mutating<A: Flav, B: Flav>(rep: &mut Report, cases: u64, rng: &mut Rng) {
+    for i in 0..cases {
+        let c = crate::mutate::random_case(rng, A::DIRECTED);
+        let mut scratch = Report::new();
+        let (ma, ya, fa) = crate::mutate::run_case_full::<A>(&c, &mut scratch);
+        let (mb, yb, fb) = crate::mutate::run_case_full::<B>(&c, &mut scratch);
+        rep.count("evaluations");
+        rep.count("mutating_loop_programs");
+        rep.distinct(fnv_str(&format!("mut|{}|{:?}|{:?}|{:?}|{}|{}", A::NAME, c.edges, c.lp, c.script, c.root, c.step)));
+        if i == 0 {
+            rep.sample(json!({"mutating_loop_program":{"connects":c.edges,"loop":format!("{:?}", c.lp),"script":format!("{:?}", c.script),"root":c.root,"step":c.step},"yields":ya.len()}));
+        }
+        let cls = |m: &Vec<String>| -> Vec<String> { m.iter().map(|x| x.chars().filter(|ch| !ch.is_ascii_digit()).take(40).collect::<String>().replace("sync_", "")).collect() };
+        if ya != yb || fa != fb || cls(&ma) != cls(&mb) {
+            rep.violation(
+                "C15",
+                format!("{} vs {}|mutating loop {:?}", A::NAME, B::NAME, match c.lp { crate::mutate::Loop::Iter(k) => format!("iter{}", k), crate::mutate::Loop::Trav { algo, .. } => format!("{:?}", algo) }),
+                format!(
+                    "[{} vs {}] graph connects={:?} (n={}), loop {:?} from {}, script {:?} fired at step {}{}:\n      {} yields {:?} -> {} {:?}\n      {} yields {:?} -> {} {:?}",
+                    A::NAME, B::NAME, c.edges, c.n, c.lp, c.root, c.script, c.step, if c.fire_every { "+" } else { "" },
+                    A::NAME, ya.iter().take(16).collect::<Vec<_>>(), fa, ma.first(),
+                    B::NAME, yb.iter().take(16).collect::<Vec<_>>(), fb, mb.first()
+                ),
+                json!({"kind":"dropin_mutating","prop":"C15","flavour":A::NAME,"n":c.n,"connects":c.edges,"root":c.root,"loop":format!("{:?}", c.lp),"script":format!("{:?}", c.script),"step":c.step,"fire_every":c.fire_every}),
+            );
+            if rep.total_violations() > 60 {
+                return;
+            }
+        }
+    }
 }
